@@ -1,5 +1,6 @@
 import IofloModel.Lemmas.Clones
 import IofloModel.Lemmas.ClonesLeaf
+import IofloModel.Lemmas.ClonesRaze
 /-!
 # C12 — cloned framers run like their originals and never share relative state; rear and raze
 
@@ -18,7 +19,10 @@ under every act inode, to a path whose second segment is the name of the framer 
 theorem C12_relative_path_has_own_name (c : Ctx) (inode : Option (List String)) (rest r : List String)
     (h : resolveParts c inode ("framer" :: "me" :: rest) = .ok r) :
     ∃ t, r = "framer" :: c.framerName :: t := by
-  rw [resolveParts_framer_me, substFramer_me] at h
+  rw [resolveParts_framer_me] at h
+  split at h
+  · cases h
+  rw [substFramer_me] at h
   cases ht : substTail c rest with
   | error e => rw [ht] at h; cases h
   | ok t =>
@@ -57,7 +61,9 @@ theorem C12_relative_path_is_substituted (c1 c2 : Ctx) (i1 i2 : Option (List Str
       = (resolveParts c1 i1 ("framer" :: "me" :: rest)).map (setName c2.framerName) := by
   rw [resolveParts_framer_me, substFramer_me, resolveParts_framer_me, substFramer_me,
       substTail_congr c1 c2 rest hf hm ha]
-  cases substTail c2 rest <;> rfl
+  split
+  · rfl
+  · cases substTail c2 rest <;> rfl
 
 example :
     (resolveParts { frames := [⟨"a0", ["fin"]⟩], framerName := "ha_c2", framerInode := ["zed"],
@@ -324,20 +330,21 @@ stand-alone interpreter of `P` on the private memory `k ↦ store[ι k]`: same e
 memory, and the events it emits are the stand-alone events labelled with its name.  Nothing else about the object
 (name, identity, tag, inode, main frame, the other objects of the house, the other shares) enters. -/
 theorem C12_leaf_refines_partial (lo : Ops) (ι : String → String) (name : String) (P : List Frame) (first : String)
-    (u : Nat) (base : List String) (hι : Resolves ι name) (hP : Leafy P) (e : Entry) (s : St) (l : LSt)
-    (h : Sim ι name P first u base s l) :
-    CorrSt (Sim ι name P first u base) (callEntry lo u e s) (lcallEntry P first e l) := by
+    (u : Nat) (base : List String) (s0 : St) (hι : Resolves ι name) (hP : Leafy P) (e : Entry) (s : St) (l : LSt)
+    (h : Sim ι name P first u base s0 s l) :
+    CorrSt (Sim ι name P first u base s0) (callEntry lo u e s) (lcallEntry P first e l) := by
   cases e with
-  | enterAll => exact sim_enterAll lo ι name P first u base hι.inj hP hι.elapsed hι.recurred s l h
-  | recur => exact sim_recur lo ι name P first u base hι.inj hP s l h
-  | segue => exact sim_segue lo ι name P first u base hι.inj hP hι.elapsed hι.recurred s l h
-  | exitAll => exact sim_exitAll lo ι name P first u base hι.inj hP false s l h
+  | enterAll => exact sim_enterAll lo ι name P first u base s0 hι.inj hP hι.elapsed hι.recurred s l h
+  | recur => exact sim_recur lo ι name P first u base s0 hι.inj hP s l h
+  | segue => exact sim_segue lo ι name P first u base s0 hι.inj hP hι.elapsed hι.recurred s l h
+  | exitAll => exact sim_exitAll lo ι name P first u base s0 hι.inj hP false s l h
 
 /-- … and `Framer.checkStart` gives the same answer -/
 theorem C12_leaf_refines_checkStart_partial (lo : Ops) (ι : String → String) (name : String) (P : List Frame)
-    (first : String) (u : Nat) (base : List String) (hP : Leafy P) (s : St) (l : LSt)
-    (h : Sim ι name P first u base s l) : checkStart lo u s = lcheckStart P first :=
-  sim_checkStart lo ι name P first u base hP s l h
+    (first : String) (u : Nat) (base : List String) (s0 : St) (hP : Leafy P) (claimed : List Nat) (s : St) (l : LSt)
+    (h : Sim ι name P first u base s0 s l) :
+    checkStart lo u claimed s = (lcheckStart P first).map (fun b => (b, claimed)) :=
+  sim_checkStart lo ι name P first u base s0 hP claimed s l h
 
 /-- **A clone runs like its original.**  Two framer objects — a clone and the original run as an ordinary auxiliary,
 or two clones — in two houses (or in one), with different names, identities and resolution maps, whose resolved
@@ -348,15 +355,15 @@ one common situation `l'`.  In particular (`Sim.out`) they have emitted the same
 events, each under its own name, and their relative shares hold the same values. -/
 theorem C12_clone_runs_like_original_partial
     (lo1 lo2 : Ops) (ι1 ι2 : String → String) (name1 name2 : String) (P : List Frame) (first : String)
-    (u1 u2 : Nat) (base1 base2 : List String) (h1ι : Resolves ι1 name1) (h2ι : Resolves ι2 name2) (hP : Leafy P)
+    (u1 u2 : Nat) (base1 base2 : List String) (s01 s02 : St) (h1ι : Resolves ι1 name1) (h2ι : Resolves ι2 name2) (hP : Leafy P)
     (e : Entry) (s1 s2 : St) (l : LSt)
-    (h1 : Sim ι1 name1 P first u1 base1 s1 l) (h2 : Sim ι2 name2 P first u2 base2 s2 l) :
+    (h1 : Sim ι1 name1 P first u1 base1 s01 s1 l) (h2 : Sim ι2 name2 P first u2 base2 s02 s2 l) :
     match callEntry lo1 u1 e s1, callEntry lo2 u2 e s2 with
-    | .ok s1', .ok s2' => ∃ l', Sim ι1 name1 P first u1 base1 s1' l' ∧ Sim ι2 name2 P first u2 base2 s2' l'
+    | .ok s1', .ok s2' => ∃ l', Sim ι1 name1 P first u1 base1 s01 s1' l' ∧ Sim ι2 name2 P first u2 base2 s02 s2' l'
     | .error e1, .error e2 => e1 = e2
     | _, _ => False := by
-  have c1 := C12_leaf_refines_partial lo1 ι1 name1 P first u1 base1 h1ι hP e s1 l h1
-  have c2 := C12_leaf_refines_partial lo2 ι2 name2 P first u2 base2 h2ι hP e s2 l h2
+  have c1 := C12_leaf_refines_partial lo1 ι1 name1 P first u1 base1 s01 h1ι hP e s1 l h1
+  have c2 := C12_leaf_refines_partial lo2 ι2 name2 P first u2 base2 s02 h2ι hP e s2 l h2
   cases r : lcallEntry P first e l with
   | error er =>
     rw [r] at c1 c2
@@ -381,8 +388,8 @@ theorem C12_clone_runs_like_original_partial
 
 /-- the events two such objects have emitted since they were in a common situation are equal up to the name -/
 theorem C12_same_events (ι1 ι2 : String → String) (name1 name2 : String) (P : List Frame) (first : String)
-    (u1 u2 : Nat) (base1 base2 : List String) (s1 s2 : St) (l : LSt)
-    (h1 : Sim ι1 name1 P first u1 base1 s1 l) (h2 : Sim ι2 name2 P first u2 base2 s2 l) :
+    (u1 u2 : Nat) (base1 base2 : List String) (s01 s02 s1 s2 : St) (l : LSt)
+    (h1 : Sim ι1 name1 P first u1 base1 s01 s1 l) (h2 : Sim ι2 name2 P first u2 base2 s02 s2 l) :
     ∃ evs : List (String × Ctxt × String), s1.out = evs.map (render name1) ++ base1 ∧ s2.out = evs.map (render name2) ++ base2 ∧
       (∀ k, s1.read (ι1 k) = s2.read (ι2 k)) :=
   ⟨l.ev, h1.out, h2.out, fun k => (h1.mem k).trans (h2.mem k).symm⟩
@@ -392,14 +399,25 @@ change, objects are made and razed, time advances — as long as the object itse
 resolve to are left alone, the object is in the same situation as before at the new time (events counted from the new
 output on).  So two such objects that see the same times stay in one common situation over a whole run. -/
 theorem C12_situation_stable (ι : String → String) (name : String) (P : List Frame) (first : String) (u : Nat)
-    (base : List String) (s s' : St) (l : LSt)
-    (h : Sim ι name P first u base s l)
+    (base : List String) (s0 s s' : St) (l : LSt)
+    (h : Sim ι name P first u base s0 s l)
     (hobj : s'.get? u = s.get? u) (hmem : ∀ k, s'.read (ι k) = s.read (ι k)) :
-    Sim ι name P first u s'.out s' { l with now := s'.now, ev := [] } :=
+    Sim ι name P first u s'.out s' s' { l with now := s'.now, ev := [] } :=
   { obj := by rw [hobj]; exact h.obj
     mem := fun k => (hmem k).trans (h.mem k)
     now := rfl
-    out := by simp }
+    out := by simp
+    rest := Rest.refl ι u s' }
+
+/-- **A framer object without auxiliaries touches nothing but itself.**  While it runs (any number of entry points
+from the situation `s0`), every other framer object, the name registry, the worklists, every field of its own object
+other than the control state, and every share its references do not resolve to stay as they were in `s0`. -/
+theorem C12_leaf_touches_only_itself (ι : String → String) (name : String) (P : List Frame) (first : String) (u : Nat)
+    (base : List String) (s0 s : St) (l : LSt) (h : Sim ι name P first u base s0 s l) :
+    (∀ v, v ≠ u → s.get? v = s0.get? v) ∧ s.names = s0.names ∧ s.nextUid = s0.nextUid ∧
+    (∀ p, (∀ k, ι k ≠ p) → s.read p = s0.read p) ∧
+    (∀ o, s.get? u = some o → ∃ o0, s0.get? u = some o0 ∧ o = { o0 with ctl := o.ctl }) :=
+  ⟨h.rest.others, h.rest.names, h.rest.nextUid, h.rest.shares, h.rest.self⟩
 
 /-- the resolution map of name-relative references: `framer.<name>.` in front -/
 def prefixMap (name : String) (k : String) : String := "framer." ++ name ++ "." ++ k
@@ -433,10 +451,91 @@ def exHouse (name : String) (uid : Nat) : St :=
                frames := exP.map (Frame.mapRef (prefixMap name)) }],
     now := 3 }
 
-example : Sim (prefixMap "ha_c1") "ha_c1" exP "a0" 7 [] (exHouse "ha_c1" 7) { ctl := {}, mem := fun _ => none, now := 3 } :=
-  { obj := ⟨_, rfl, rfl, rfl, rfl, rfl⟩, mem := fun _ => rfl, now := rfl, out := rfl }
+example : Sim (prefixMap "ha_c1") "ha_c1" exP "a0" 7 [] (exHouse "ha_c1" 7) (exHouse "ha_c1" 7)
+    { ctl := {}, mem := fun _ => none, now := 3 } :=
+  { obj := ⟨_, rfl, rfl, rfl, rfl, rfl⟩, mem := fun _ => rfl, now := rfl, out := rfl, rest := Rest.refl _ _ _ }
 
-example : Sim (prefixMap "qma") "qma" exP "a0" 2 [] (exHouse "qma" 2) { ctl := {}, mem := fun _ => none, now := 3 } :=
-  { obj := ⟨_, rfl, rfl, rfl, rfl, rfl⟩, mem := fun _ => rfl, now := rfl, out := rfl }
+example : Sim (prefixMap "qma") "qma" exP "a0" 2 [] (exHouse "qma" 2) (exHouse "qma" 2)
+    { ctl := {}, mem := fun _ => none, now := 3 } :=
+  { obj := ⟨_, rfl, rfl, rfl, rfl, rfl⟩, mem := fun _ => rfl, now := rfl, out := rfl, rest := Rest.refl _ _ _ }
+
+/-! ## razing clones that have no auxiliaries below them: the exact effect -/
+
+/-- **Raze, exactly** (PARTIAL: the selected clones have no auxiliaries below them — `LeafObj`, a property of the
+objects as they stand — and the aux list of the named frame has no duplicates).  After `raze who in frame F` by
+framer `u` at any nesting level:
+* frame `F` has lost exactly the selected razeable insular clones, every other entry keeps its place, and nothing else
+  of the frame changed;
+* every other frame of `u` is unchanged;
+* every framer object that is neither `u` nor selected is unchanged (so a razed clone is in no aux list it was not
+  in before: it is not run again);
+* every selected clone is no longer entered (`active = none`: its active frames were exited bottom-up by `exitAll`
+  if it was still entered, `prune_leaf`) and its name is no longer registered to it;
+* no name was registered that was not registered before. -/
+theorem C12_raze_leaf_clones_partial (lo' : Ops) (u : Nat) (who : Who) (F : String) (s s' : St) (f : Frame)
+    (hf : s.frameOf u F = .ok f) (hnd : f.auxes.Nodup)
+    (hl : ∀ a ∈ razeables s who f.auxes, a ≠ u ∧ LeafObj s a)
+    (h : raze (nextOps lo') u who F s = .ok s') :
+    (∃ f', s'.frameOf u F = .ok f' ∧ f'.auxes = f.auxes.filter (fun x => !(razeables s who f.auxes).contains x) ∧
+        { f' with auxes := f.auxes } = f) ∧
+    (∀ fn, fn ≠ F → s'.frameOf u fn = s.frameOf u fn) ∧
+    (∀ v, v ≠ u → v ∉ razeables s who f.auxes → s'.get? v = s.get? v) ∧
+    (∀ a ∈ razeables s who f.auxes, ∃ oa oa', s.get? a = some oa ∧ s'.get? a = some oa' ∧ oa'.ctl.active = none ∧
+        lookup s'.names oa.name ≠ some a) ∧
+    (∀ n x, lookup s'.names n = some x → lookup s.names n = some x) :=
+  raze_leaf lo' u who F s s' f hf hnd hl h
+
+/-- pruning such a clone: exit if entered (through the stand-alone `lexitAll`), then unregister; nothing else -/
+theorem C12_prune_leaf_clone_partial (lo : Ops) (ι : String → String) (name : String) (P : List Frame) (first : String)
+    (u : Nat) (base : List String) (hinj : ∀ a b, ι a = ι b → a = b) (hP : Leafy P)
+    (s : St) (l : LSt) (h : Sim ι name P first u base s s l) (s' : St) (hp : prune lo u s = .ok s') :
+    ∃ s1 l1 me, s.get? u = some me ∧ Sim ι name P first u base s s1 l1 ∧ s' = unregister s1 me ∧
+      l1.ctl.active = none ∧
+      (l.ctl.active.isSome = true → lexitAll P false l = .ok l1) ∧ (l.ctl.active.isSome = false → s1 = s ∧ l1 = l) :=
+  prune_leaf lo ι name P first u base hinj hP s l h s' hp
+
+example : LeafObj (exHouse "ha_ma1" 4) 4 :=
+  ⟨_, prefixMap "ha_ma1", exP, rfl, rfl, by decide, (C12_prefix_map_resolves "ha_ma1").inj⟩
+
+/-! ## rear -/
+
+/-- **Rear.**  The clone-making part of `Rearer.action` in a house whose next object identity is unused: the tag is
+the original's tag followed by a positive count and is not in use in the rearing framer (`rear_tag_fresh`), the name is
+`surname_tag` and was free, the new framer object is a copy of the original's definition flagged clone + insular +
+razeable with the named frame as its fixed main frame, it is appended to that frame's aux list, entered in the framer's
+`auxes` under the tag and queued for presolve; every other object is untouched. -/
+theorem C12_rear_creates_fresh_insular_razeable (u : Nat) (moot frame : String) (s s' : St) (c : Fr)
+    (hfresh : s.get? s.nextUid = none) (h : rearCreate u moot frame s = .ok (s', c)) :
+    ∃ orig me tag sn, resolveFramer s moot none = .ok orig ∧ s.get? u = some me ∧
+      (tag ∉ me.auxes.map (·.1) ∧ ∃ n, 1 ≤ n ∧ tag = orig.tag ++ toString n) ∧ surname s u = .ok sn ∧
+      c.name = sn ++ "_" ++ tag ∧ c.uid = s.nextUid ∧ lookup s.names c.name = none ∧
+      lookup s'.names c.name = some c.uid ∧
+      (∃ c', s'.get? c.uid = some c' ∧ c'.name = c.name ∧ c'.tag = (if tag = "" then c.name else tag) ∧
+        c'.original = false ∧ c'.insular = true ∧ c'.razeable = true ∧ c'.main = some (u, frame) ∧
+        c'.frames = orig.frames.map Frame.clone ∧ c'.ctl = {}) ∧
+      (∃ me', s'.get? u = some me' ∧ lookup me'.auxes tag = some c.uid ∧
+        ∀ fn, me'.frame? fn = (me.frame? fn).map (fun f => if fn = frame then { f with auxes := f.auxes ++ [c.uid] } else f)) ∧
+      (∀ v, v ≠ u → v ≠ c.uid → s'.get? v = s.get? v) ∧
+      s'.presolvables = s.presolvables ++ [c.uid] := by
+  obtain ⟨orig, me, tag, sn, h1, h2, h3, h4, h5, h6, h7, h8, h9, h10, h11, h12⟩ :=
+    rearCreate_spec u moot frame s s' c hfresh h
+  exact ⟨orig, me, tag, sn, h1, h2, C12_new_tag_fresh _ _ _ h3, h4, h5, h6, h7, h8, h9, h10, h11, h12⟩
+
+/-! non-vacuity: a concrete host `ha` (frames `f0`, `f1`) rears the concrete moot `ma` into `f1` -/
+
+def exRearHouse : St :=
+  { objs := [{ uid := 0, name := "ha", tag := "ha", sched := .active, inode := "", first := "f0", presolved := true,
+               resolved := true,
+               frames := [{ name := "f0", inode := "", over := none, next := some "f1", outline := ["f0"], links := [],
+                            items := [.act .enter (.rear "ma" "f1")] },
+                          { name := "f1", inode := "", over := none, next := none, outline := ["f1"], links := [],
+                            items := [] }] },
+             { uid := 1, name := "ma", tag := "ma", sched := .moot, inode := "", first := "a0", frames := exP }],
+    names := [("ha", 0), ("ma", 1)], nextUid := 2 }
+
+example : exRearHouse.get? exRearHouse.nextUid = none := by decide +kernel
+
+example : (rearCreate 0 "ma" "f1" exRearHouse).toOption.map (fun r => (r.2.name, r.2.uid, r.1.presolvables))
+    = some ("ha_ma1", 2, [2]) := by decide +kernel
 
 end Ioflo.Clones
